@@ -126,6 +126,9 @@ func configuredFaults(p *plan.Plan) []string {
 				if np.Status != 200 && np.Status != 0 {
 					out = append(out, "net:status")
 				}
+				if np.CLen != nil {
+					out = append(out, "net:content-length")
+				}
 				if np.StallAt >= 0 {
 					out = append(out, "net-body:stall")
 				}
@@ -903,6 +906,15 @@ func runCheck(prop, tier string, seed uint64, workers, budgetOverride int, keep,
 	if tier == "thorough" {
 		gen.MaxDepth = 2000
 	}
+	if prop == "C12" {
+		// the race detector slows every access about tenfold; keep pages moderate
+		gen.MaxDepth = 40
+	}
+	repoDir := os.Getenv("VERIF_REPO")
+	if repoDir == "" {
+		repoDir = "/repo"
+	}
+	logf("harvested %d markup fragments from the repository's test files", gen.Harvest(repoDir))
 	known := loadKnown()
 	budget := tierBudget(prop, tier, budgetOverride)
 	t0 := time.Now()
@@ -1042,6 +1054,10 @@ func runCheck(prop, tier string, seed uint64, workers, budgetOverride int, keep,
 	}
 	if trouble != "" {
 		fmt.Fprintf(os.Stderr, "simcheck: TROUBLE (exit 2): %s (%d occurrences)\n", trouble, len(c.troubles))
+		return 2
+	}
+	if over := c.counters["race_plans_over_wall_cap"]; over > 3 && over*20 > c.evals {
+		fmt.Fprintf(os.Stderr, "simcheck: TROUBLE (exit 2): %d of %d race plans exceeded the wall-clock cap\n", over, c.evals)
 		return 2
 	}
 	if c.recheckBad > 0 {
@@ -1215,9 +1231,8 @@ func (c *Check) confirm(v *Violation) *Violation {
 		for i := 0; i < 2; i++ {
 			pr := c.env.Run(v.Plan)
 			if procState(pr) != "watchdog" {
-				c.mu.Lock()
-				c.troubles = append(c.troubles, Trouble{What: "wall-clock watchdog fired once but the plan does not hang on replay", Plan: v.Plan})
-				c.mu.Unlock()
+				// slow once (loaded machine), not a hang: no verdict
+				c.count("wall_watchdog_not_reproduced", 1)
 				return nil
 			}
 		}
